@@ -1907,7 +1907,8 @@ class Processor:
                     for node_coord in self._get_nodes_by_traversal(
                         ele, yaml_path, segment_index,
                         parent=data, parentref=idx,
-                        translated_path=next_translated_path
+                        translated_path=next_translated_path,
+                        ancestry=ancestry + [(data, idx)]
                     ):
                         self.logger.debug(
                             "Yielding unfiltered Array value:",
